@@ -249,6 +249,11 @@ def r2_logs(src, log):
                 edits.append((a[0].start, toks[close].end, "()"))
                 k = ci + 1
                 continue
+            elif prev == ">" and k >= 2 and toks[s[k - 2]].text == "=" and nxt is not None and nxt.text in (",", "}"):
+                # the whole expression of a match arm (`pat => tracing::x!(..),`): the unit value
+                edits.append((a[0].start, toks[close].end, "()"))
+                k = ci + 1
+                continue
             else:
                 raise ExtractError("tracing macro in expression position (outside R2)")
         k += 1
